@@ -7,6 +7,9 @@ import (
 	"reflect"
 	"strconv"
 	"strings"
+	"sync"
+	"sync/atomic"
+	"time"
 	"unsafe"
 
 	"github.com/evolbioinfo/gotree/hashmap"
@@ -21,6 +24,10 @@ func c04(c *Sexp) *Sexp {
 		return c04Index(c)
 	case "edit":
 		return c04Edit(c)
+	case "handbuilt":
+		return c04HandBuilt(c)
+	case "parmap":
+		return c04ParMap(c)
 	case "samebip":
 		return c04SameBip(c)
 	case "edgeindex":
@@ -429,4 +436,165 @@ func c04Quartet(c *Sexp) *Sexp {
 		}
 	}
 	return L(KV("rows", rows))
+}
+
+// handbuilt: a tree assembled through the public API only (NewNode / ConnectNodes in arbitrary
+// directions / SetRoot), oriented by the public sequences a user would run, then ReinitIndexes and
+// the usual observation of the tables, judged against the structure that is dumped.
+func c04HandBuilt(c *Sexp) *Sexp {
+	flip := []bool{}
+	for _, f := range c.Get("flip").List {
+		flip = append(flip, f.Atom == "T")
+	}
+	t, err := BuildTreeAPI(c.Get("tree"), flip)
+	if err != nil {
+		return L(KV("panic", A("build: "+err.Error())))
+	}
+	var operr error
+	switch c.Str("seq") {
+	case "reroot_root":
+		operr = t.Reroot(t.Root())
+	case "setroot_reroot":
+		nodes := t.Nodes()
+		n := nodes[c.Int("i")%len(nodes)]
+		t.SetRoot(n)
+		operr = t.Reroot(n)
+	case "rerootfirst":
+		operr = t.RerootFirst()
+	default:
+		return L(KV("panic", A("unknown seq")))
+	}
+	if operr == nil {
+		if err := t.ReinitIndexes(); err != nil {
+			operr = fmt.Errorf("reinit: %v", err)
+		}
+	}
+	d, audit := ObserveTree(t)
+	obs := []*Sexp{KV("operr", A(errStr(operr))), KV("tree", d), KV("audit", audit)}
+	if operr == nil {
+		obs = append(obs, c04SafeTables(t)...)
+		obs = append(obs, c04AgainstCopy(t, d)...)
+	}
+	return L(obs...)
+}
+
+// parmap: several goroutines write to ONE shared HashMap (it has a RWMutex for that purpose).
+// Every key belongs to one goroutine, so the results of a goroutine and the final content do not
+// depend on the interleaving.  To make writers meet resizes, a key notices when the map calls
+// HashCode on it although no operation on it is in flight (that is rehash, under the write lock):
+// the resizing goroutine then pauses a little and the other writers hurry to start their next put.
+type c04Ctl struct {
+	lastRehash int64 // UnixNano of the last HashCode call made from rehash
+}
+
+type c04PKey struct {
+	idx      int
+	hash     uint64
+	class    int
+	inflight int32
+	ctl      *c04Ctl
+}
+
+func (k *c04PKey) HashCode() uint64 {
+	if atomic.LoadInt32(&k.inflight) == 0 {
+		now := time.Now().UnixNano()
+		last := atomic.LoadInt64(&k.ctl.lastRehash)
+		atomic.StoreInt64(&k.ctl.lastRehash, now)
+		if now-last > int64(2*time.Millisecond) {
+			// first call of this rehash: let the other writers arrive
+			time.Sleep(300 * time.Microsecond)
+			atomic.StoreInt64(&k.ctl.lastRehash, time.Now().UnixNano())
+		}
+	}
+	return k.hash
+}
+func (k *c04PKey) HashEquals(h hashmap.Hasher) bool { return k.class == h.(*c04PKey).class }
+
+func c04ParMapOnce(c *Sexp) *Sexp {
+	capacity, _ := strconv.ParseUint(c.Str("cap"), 10, 64)
+	m := hashmap.NewHashMap(capacity, c.Float("lf"))
+	ctl := &c04Ctl{}
+	type kd struct {
+		hash  uint64
+		class int
+	}
+	kds := []kd{}
+	for _, k := range c.Get("keys").List {
+		h, _ := strconv.ParseUint(k.List[0].Atom, 10, 64)
+		cl, _ := strconv.Atoi(k.List[1].Atom)
+		kds = append(kds, kd{h, cl})
+	}
+	gops := c.Get("gops").List
+	results := make([]*Sexp, len(gops))
+	var wg sync.WaitGroup
+	start := make(chan struct{})
+	for g := range gops {
+		wg.Add(1)
+		go func(g int) {
+			defer wg.Done()
+			defer func() {
+				if r := recover(); r != nil {
+					results[g] = L(L(A("panic"), A(fmt.Sprintf("%v", r))))
+				}
+			}()
+			res := L()
+			<-start
+			for _, op := range gops[g].List {
+				ki, _ := strconv.Atoi(op.List[1].Atom)
+				key := &c04PKey{idx: ki, hash: kds[ki].hash, class: kds[ki].class, ctl: ctl}
+				switch op.List[0].Atom {
+				case "put":
+					v, _ := strconv.Atoi(op.List[2].Atom)
+					// hurry when somebody is resizing, otherwise wait a moment for a resize to meet
+					for spin := 0; spin < 40; spin++ {
+						if time.Now().UnixNano()-atomic.LoadInt64(&ctl.lastRehash) < int64(250*time.Microsecond) {
+							break
+						}
+						time.Sleep(5 * time.Microsecond)
+					}
+					atomic.StoreInt32(&key.inflight, 1)
+					m.PutValue(key, &c04Val{v})
+					atomic.StoreInt32(&key.inflight, 0)
+					res.List = append(res.List, L(A("ok")))
+				case "val":
+					atomic.StoreInt32(&key.inflight, 1)
+					v, ok := m.Value(key)
+					atomic.StoreInt32(&key.inflight, 0)
+					if ok {
+						res.List = append(res.List, L(A("v"), B(true), I(v.(*c04Val).v)))
+					} else {
+						res.List = append(res.List, L(A("v"), B(false)))
+					}
+				}
+			}
+			results[g] = res
+		}(g)
+	}
+	close(start)
+	wg.Wait()
+	res := L()
+	for _, r := range results {
+		res.List = append(res.List, r.List...)
+	}
+	kvs := L()
+	for _, kv := range m.KeyValues() {
+		if kv == nil {
+			kvs.List = append(kvs.List, L(I(-1), I(0)))
+			continue
+		}
+		kvs.List = append(kvs.List, L(I(kv.Key.(*c04PKey).idx), I(kv.Value.(*c04Val).v)))
+	}
+	return L(KV("res", res), KV("kvs", kvs))
+}
+
+func c04ParMap(c *Sexp) *Sexp {
+	reps := L()
+	n := c.Int("reps")
+	if n < 1 {
+		n = 1
+	}
+	for i := 0; i < n; i++ {
+		reps.List = append(reps.List, c04ParMapOnce(c))
+	}
+	return L(KV("reps", reps))
 }
